@@ -194,10 +194,7 @@ func (s *gSched) run(rng *vh.Rand, maxSteps int) string {
 		}
 		if len(parked) == 0 {
 			s.release()
-			d := gLastDump
-			if len(d) > 6000 {
-				d = d[:6000]
-			}
+			d := chainsFilterStacks(gLastDump)
 			return fmt.Sprintf("deadlock: %d goroutines blocked on a lock, none can run\n%s", blocked, d)
 		}
 		if atomic.LoadInt64(&s.Steps) >= int64(maxSteps) {
@@ -234,7 +231,7 @@ func (s *gSched) release() {
 		case <-time.After(100 * time.Millisecond):
 		}
 	}
-	deadline := time.Now().Add(2 * time.Second)
+	deadline := time.Now().Add(400 * time.Millisecond)
 	for time.Now().Before(deadline) {
 		s.mu.Lock()
 		n := 0
@@ -262,6 +259,7 @@ type c11ConcCase struct {
 	SchedSeed uint64     `json:"sched_seed"`
 	Trace     string     `json:"schedule,omitempty"`
 	Observed  []string   `json:"observed,omitempty"`
+	stalled   bool
 }
 
 type c11Req struct {
@@ -352,11 +350,20 @@ func c11RunConc(c *c11ConcCase) (fails []c11PolicyFail, reqs []*c11Req, err erro
 					if perr != nil {
 						continue
 					}
-					if e := swap.Swap(run.build(sh)); e != nil {
-						mu.Lock()
-						fails = append(fails, c11PolicyFail{"swap/swap-fails", fmt.Sprintf("Swap returned %v", e)})
-						mu.Unlock()
-					}
+					func() {
+						defer func() {
+							if p := recover(); p != nil {
+								mu.Lock()
+								fails = append(fails, c11PolicyFail{"swap/panic", fmt.Sprintf("Swap of %s for %s panicked: %v", c.Shape, c.Gens[g], p)})
+								mu.Unlock()
+							}
+						}()
+						if e := swap.Swap(run.build(sh)); e != nil {
+							mu.Lock()
+							fails = append(fails, c11PolicyFail{"swap/swap-fails", fmt.Sprintf("Swap returned %v", e)})
+							mu.Unlock()
+						}
+					}()
 					continue
 				}
 				r := &c11Req{Thread: ti, Op: op, Start: int(atomic.LoadInt64(&sched.Steps))}
@@ -395,7 +402,16 @@ func c11RunConc(c *c11ConcCase) (fails []c11PolicyFail, reqs []*c11Req, err erro
 	}
 	rng := vh.NewRand(c.SchedSeed)
 	if msg := sched.run(rng, 5000); msg != "" {
-		fails = append(fails, c11PolicyFail{"chain/concurrent-stall", msg})
+		class := "chain/concurrent-stall"
+		if strings.HasPrefix(msg, "deadlock") {
+			// every goroutine that has not finished waits for a lock and nobody who could release it can run
+			class = "failover/requests-stuck"
+			if strings.HasPrefix(c.Conc, "swap") {
+				class = "swap/request-and-swap-stuck"
+			}
+		}
+		fails = append(fails, c11PolicyFail{class, msg})
+		c.stalled = true
 	}
 	c.Trace = strings.Join(sched.Trace, " ")
 	return fails, reqs, nil
@@ -442,6 +458,15 @@ func c11ConcPredicate(c *c11ConcCase, w []*c11Member, reqs []*c11Req, shape *c11
 	bad := func(class, f string, a ...interface{}) {
 		fails = append(fails, c11PolicyFail{class, fmt.Sprintf(f, a...)})
 	}
+	var returned []*c11Req
+	for _, r := range reqs {
+		if r.Result == "" {
+			c.Observed = append(c.Observed, fmt.Sprintf("t%d %s calls=%v closed=%v -> (never returned)", r.Thread, r.Op, r.Calls, r.Closed))
+		} else {
+			returned = append(returned, r)
+		}
+	}
+	reqs = returned // a request that never returned is reported by the stall classes
 	for _, r := range reqs {
 		c.Observed = append(c.Observed, fmt.Sprintf("t%d %s calls=%v closed=%v -> %s", r.Thread, r.Op, r.Calls, r.Closed, r.Result))
 		if strings.HasPrefix(r.Result, "PANIC") {
@@ -532,7 +557,13 @@ func c11ConcPredicate(c *c11ConcCase, w []*c11Member, reqs []*c11Req, shape *c11
 				}
 			}
 			cls := r.Result[strings.LastIndex(r.Result, ":")+1:]
-			if cls != "n" && cls != "m" {
+			faulty := false
+			for _, m := range w {
+				if m.faults != "" || m.dflt != 'n' {
+					faulty = true // the case injects member failures on purpose (requests that fail while Swap runs)
+				}
+			}
+			if cls != "n" && cls != "m" && !faulty {
 				bad("swap/request-fails", "request %s of goroutine %d failed under Swap: %s", r.Op, r.Thread, r.Result)
 			}
 			if r.Op[0] == 'g' && cls == "n" && len(r.Calls) > 0 && !strings.HasPrefix(r.Result, "G5") {
@@ -750,7 +781,33 @@ func c11Concurrent(a vh.Args, o *vh.Oracle, r *vh.Result, rng *vh.Rand) error {
 	if a.Tier == "thorough" {
 		n = 6000
 	}
+	// corpus: a FAILING request (missing chunk / failing member) sits inside the wrapped store while Swap is called
+	// and is released afterwards; and a swap of a value-typed chain for another one of the same type
+	stalls := 0
+	corpus := []*c11ConcCase{
+		{Conc: "swap", Members: []string{"0:0:1/_/n", "0:100:1/_/n"}, Shape: "R[L0]", Gens: []string{"R[L1]"}, Threads: [][]string{{"g2", "g0"}, {"w"}}},
+		{Conc: "swap", Members: []string{"0:0:1/_/e", "0:100:1/_/n"}, Shape: "R[L0]", Gens: []string{"R[L1]"}, Threads: [][]string{{"h0", "g0"}, {"w"}, {"g0"}}},
+		{Conc: "swapw", Members: []string{"0:0:1/_/n", "0:100:1/_/n"}, Shape: "L0", Gens: []string{"L1"}, Threads: [][]string{{"g4", "s3:5001", "g3"}, {"w"}}},
+	}
+	for _, c := range corpus {
+		for s := 0; s < 6 && stalls < 2; s++ {
+			c.SchedSeed = rng.U64()
+			r.Running(c)
+			if _, err := c11CheckConc(r, c, true); err != nil {
+				return err
+			}
+			if c.stalled {
+				stalls++
+			}
+			r.Count(fmt.Sprintf("conc-corpus|%s|%v|%d", c.Shape, c.Threads, c.SchedSeed), true)
+			r.Dist("conc:corpus")
+		}
+	}
 	for k := 0; k < n; k++ {
+		if stalls >= 2 {
+			r.Note("two concurrent cases ended with every goroutine stuck on a lock: the remaining scheduled cases are skipped")
+			break
+		}
 		var c *c11ConcCase
 		switch k % 3 {
 		case 0:
@@ -767,9 +824,13 @@ func c11Concurrent(a vh.Args, o *vh.Oracle, r *vh.Result, rng *vh.Rand) error {
 		// several schedules per configuration
 		for s := 0; s < 3; s++ {
 			c.SchedSeed = rng.U64()
+			r.Running(c)
 			bad, err := c11CheckConc(r, c, true)
 			if err != nil {
 				return err
+			}
+			if c.stalled {
+				stalls++
 			}
 			nth := 0
 			for _, t := range c.Threads {
